@@ -56,6 +56,7 @@ extern uint32_t vf_projmask;   /* which classes of behaviour-log entries this pr
 #define VF_M_N 16u
 #define VF_M_C 32u
 #define VF_M_F 64u
+#define VF_M_S 256u   /* source / target state identity seen by guards and actions (C14) */
 #define VF_M_Q 128u   /* which behaviour hooks fire in the current step */
 
 /* C15: two machine objects; the continuation drives one of them (vf_which) */
